@@ -110,6 +110,16 @@ def check_value(ctx, d, D, v, vi):
             bad, det = one_token(sql, kind, STRING_TYPES)
             if bad:
                 ctx.violation(f"{kind}:{dn}:{bad}:{feature(v)}", {"value": v, **det}, case)
+        # national literal (N'...') where the dialect writes one; elsewhere it degrades to a plain string: either way one
+        # string token carrying the value
+        if vi % 4 == 0:
+            try:
+                nsql = exp.National(this=v).sql(dialect=d)
+                bad, det = one_token(nsql, "national", STRING_TYPES)
+                if bad:
+                    ctx.violation(f"national:{dn}:{bad}:{feature(v)}", {"value": v, **det}, case)
+            except Exception as e:
+                ctx.violation(f"national:{dn}:generate-raises:{type(e).__name__}", {"value": v, "error": repr(e)[:200]}, case)
         # builder slot: the token stream equals the template's except for the one value token
         try:
             q = select("a").from_("t").where(exp.column("c").eq(v)).sql(dialect=d, pretty=(vi % 2 == 0))
